@@ -28,6 +28,11 @@ func docsEqual(a, b bsonkit.Doc) bool {
 // and equal. Interface equality cannot be used as document, array and binary
 // values are not comparable in Go (and NaN never equals itself).
 func sameID(a, b interface{}) bool {
+	// a missing _id is only identical to a missing _id (not to null)
+	if a == bsonkit.Missing || b == bsonkit.Missing {
+		return a == b
+	}
+
 	_, ta := bsonkit.Inspect(a)
 	_, tb := bsonkit.Inspect(b)
 	return ta == tb && bsonkit.Compare(a, b) == 0
